@@ -10,7 +10,7 @@ From TLV Require Import Base.Shape Base.PyList Base.Tensor Base.Ops Model.Base M
      Proofs.SvdDecompTuckerErr Proofs.SvdDecompTuckerBound Proofs.SvdDecompHosvdBound
      Proofs.SvdDecompPartial Proofs.SvdDecompTuckerGen Proofs.SvdDecompRingErr Proofs.SvdDecompTTMErr
      Proofs.SvdDecompValidate Proofs.SvdDecompRingPartial Proofs.SvdDecompRingErrR
-     Proofs.SvdDecompRankCond Model.SvdDecompSymeig Proofs.SvdDecompSymeig Proofs.SvdDecompSymeigRing Proofs.SvdDecompSymeigEig Model.SvdDecompRand Proofs.SvdDecompRand Proofs.SvdDecompEckartYoung.
+     Proofs.SvdDecompRankCond Model.SvdDecompSymeig Proofs.SvdDecompSymeig Proofs.SvdDecompSymeigRing Proofs.SvdDecompSymeigEig Model.SvdDecompRand Proofs.SvdDecompRand Proofs.SvdDecompEckartYoung Proofs.SvdDecompTTUpper Proofs.SvdDecompMethodsTucker Proofs.SvdDecompTTRank.
 Import ListNotations.
 
 (* exactness of one TT-SVD step, over every commutative ring: truncating + sign-flipping a
@@ -918,3 +918,104 @@ Theorem C09_tensor_ring_error_lower_local : forall (X : tensor R) (cores : list 
   (tail2 Rops (l * nth 2 (shape (nth (b - 1) cores (mk [] []))) 0%nat) (snd3 aX) <= tr_err2 Rops X cores)%R.
 Proof. exact (fun X cores l b aX Hb Hl H0 Hk Hc => ring_error_lower_local X cores l b aX Hb Hl H0 Hk (eckart_young_holds _ _ _ _ _ Hc)). Qed.
 Print Assumptions C09_tensor_ring_error_lower_local.
+
+(* ============================================================ TT-SVD: the root-sum-square upper bound, FULL ================ *)
+(* the former named hypothesis working_tails_le_x_tails is a theorem: step by step, the discarded tail of the working unfolding
+   is at most the discarded tail of the corresponding sequential unfolding of X.  Premises: LAPACK's contract for the answers
+   of the run (tt_sorted: orthonormal U / Vh, U diag(S) Vh = query, S non-negative non-increasing) and the full contract for the
+   answers svdX gives for the unfoldings of X (x_contract_from).  Proof: invariant "working array = P^T X for a frame P with
+   orthonormal columns" by induction over the loop, Eckart-Young (C09_eckart_young) + Bessel. *)
+Theorem C09_working_tails_le_x_tails : forall (svd svdX : nat -> tensor R -> svdans) (X : tensor R) (rank : rank_spec),
+  0 < prod (shape X) -> tt_sorted svd X rank ->
+  x_contract_from svdX X 1 (tt_rank_list svd X rank) ->
+  working_tails_le_x_tails svd svdX X rank.
+Proof. exact working_tails_le_x_tails_holds. Qed.
+Print Assumptions C09_working_tails_le_x_tails.
+
+(* FULL: the literal upper bound of the property, squared: the TT-SVD error^2 is at most the sum over the sequential unfoldings
+   of X of their discarded squared singular values (at the bonds the run realises); every order, every rank request *)
+Theorem C09_tt_error_root_sum_square : forall (svd svdX : nat -> tensor R -> svdans) (X : tensor R) (rank : rank_spec)
+  (cores : list (tensor R)),
+  0 < prod (shape X) -> tt_sorted svd X rank ->
+  x_contract_from svdX X 1 (tt_rank_list svd X rank) ->
+  tensor_train Rops svd X rank = Ok cores ->
+  (tt_err2 Rops X cores <= Rsum (x_tail_list svd svdX X rank))%R.
+Proof. exact tt_error_root_sum_square. Qed.
+Print Assumptions C09_tt_error_root_sum_square.
+
+(* FULL: the first sentence of the property end to end for TT-SVD: if every sequential unfolding of X factors through the bond
+   the run realises (rank of the unfolding <= bond), tensor_train reproduces X -- only LAPACK's plain contract is assumed for the
+   answers of the run, nothing about what the truncations discard *)
+Theorem C09_tensor_train_exact_from_rank_condition : forall (svd : nat -> tensor R -> svdans) (X : tensor R) (rank : rank_spec)
+  (cores : list (tensor R)),
+  0 < prod (shape X) -> tt_sorted svd X rank ->
+  x_factors_from X 1 (tt_rank_list svd X rank) ->
+  tensor_train Rops svd X rank = Ok cores ->
+  forall idx, inb (shape X) idx -> tt_entry Rops cores idx = get 0%R X idx.
+Proof. exact tensor_train_exact_from_rank_condition. Qed.
+Print Assumptions C09_tensor_train_exact_from_rank_condition.
+
+Example C09_nonvacuous_tt_upper :
+  let svd := fun (_ : nat) (_ : tensor R) => ey_a in
+  0 < prod (shape ey_M) /\ tt_sorted svd ey_M (inr [1; 1; 1]) /\
+  x_contract_from svd ey_M 1 (tt_rank_list svd ey_M (inr [1; 1; 1])).
+Proof. exact tt_upper_hypotheses_satisfiable. Qed.
+
+Example C09_nonvacuous_tt_rank_condition :
+  let svd := fun (_ : nat) (_ : tensor R) => rk1_a in
+  0 < prod (shape rk1_M) /\ tt_sorted svd rk1_M (inr [1; 1; 1]) /\
+  x_factors_from rk1_M 1 (tt_rank_list svd rk1_M (inr [1; 1; 1])).
+Proof. exact tt_rank_condition_satisfiable. Qed.
+
+(* ============================================================ tucker with svd = "randomized_svd" / "symeig_svd" ============ *)
+(* one randomized_svd call (both branches) meets the U-side contract of C09_tucker_exact_gen_R: U = Q U_inner (resp. U_inner) has
+   orthonormal columns spanning the columns of the query, given Q^T Q = I, range captured, inner SVD with orthonormal U reproducing
+   the reduced matrix, discarded weights zero *)
+Theorem C09_randomized_call_contract_u : forall (M : tensor R) (m n r : nat) (a : svdans),
+  rand_call_u_ok M m n r a -> svd_contract_u M m n r a.
+Proof. exact rand_call_u_ok_contract_u. Qed.
+Print Assumptions C09_randomized_call_contract_u.
+
+(* one symeig_svd call in the branch dim_1 > dim_2: U is eigh's orthogonal W (flipped); discarded eigenvectors null vectors of M^T *)
+Theorem C09_symeig_tall_contract_u : forall (M : tensor R) (m n r : nat) (a : svdans),
+  symeig_tall_u_ok M m n r a -> svd_contract_u M m n r a.
+Proof. exact symeig_tall_u_ok_contract_u. Qed.
+Print Assumptions C09_symeig_tall_contract_u.
+
+(* tucker(init="svd", tol=0) whose initialisation calls are randomized_svd, symeig_svd on a tall unfolding, or plain SVD answers,
+   followed by any number of HOOI sweeps (truncated_svd in the code), any rank request: exact reconstruction *)
+Theorem C09_tucker_methods_exact_R : forall (svd : nat -> tensor R -> svdans) (X : tensor R) (rank : rank_spec) (n_iter : nat)
+  (core : tensor R) (fs : list (tensor R)),
+  wf X -> 0 < prod (shape X) ->
+  hosvd_call_pred svd method_u_ok X (validate_tucker_rank (ndim X) rank) 0 0 ->
+  match hosvd_factors Rops svd X (validate_tucker_rank (ndim X) rank) 0 0 with
+  | Ok fs0 => hooi_iter_contract_u svd X (validate_tucker_rank (ndim X) rank) n_iter (ndim X) fs0
+  | Err => True
+  end ->
+  tucker Rops svd X rank n_iter = Ok (core, fs) ->
+  tucker_to_tensor Rops core fs = Ok X.
+Proof. exact tucker_methods_exact_R. Qed.
+Print Assumptions C09_tucker_methods_exact_R.
+
+Example C09_nonvacuous_randomized_contract_u :
+  rand_call_u_ok rxM 2 2 1 (randomized_svd Rops (fun _ _ => rxI) (fun _ => (rxI, [2; 0]%R, rxI)) rxM rxI 1 5 0).
+Proof. exact rand_u_contract_satisfiable. Qed.
+
+Example C09_nonvacuous_symeig_tall_contract_u : symeig_tall_u_ok tallM 2 1 1 (symeig_ans Rops tallM exW [1; 1]%R).
+Proof. exact symeig_tall_u_satisfiable. Qed.
+
+(* FULL, the property's first sentence for TT-SVD in its literal form: if for every bond k the k-th sequential unfolding of X has
+   rank at most the REQUESTED rank of that bond (factors through it), then tensor_train reproduces X; only LAPACK's plain contract
+   with sorted singular values is assumed for the answers of the run.  (The realised bonds min(previous bond * size, remaining
+   size, request) are still large enough: X_(k+1) factors through rank(X_(k)) * n_k.) *)
+Theorem C09_tensor_train_exact_requested_ranks : forall (svd : nat -> tensor R -> svdans) (X : tensor R) (rank : rank_spec)
+  (cores : list (tensor R)),
+  0 < prod (shape X) -> tt_sorted svd X rank ->
+  (forall rk, validate_tt_rank (ndim X) rank = Ok rk -> requested_rank_condition X rk) ->
+  tensor_train Rops svd X rank = Ok cores ->
+  forall idx, inb (shape X) idx -> tt_entry Rops cores idx = get 0%R X idx.
+Proof. exact tensor_train_exact_requested_ranks. Qed.
+Print Assumptions C09_tensor_train_exact_requested_ranks.
+
+Example C09_nonvacuous_requested_rank_condition : requested_rank_condition rk1_M [1; 1; 1].
+Proof. exact requested_rank_condition_satisfiable. Qed.
